@@ -68,6 +68,9 @@ Definition cat_eqb (a b : catalog) : bool :=
   forallb (schema_sub b) a && forallb (schema_sub a) b && (zlen a =? zlen b).
 
 (* ------------------------------------------------------------------ what the harness reports *)
+(* long runs of one byte are printed as (rep b n) *)
+Definition rep (b n : Z) : list Z := repeat b (Z.to_nat n).
+
 (* LSame (Codec only): the loaded catalog, printed with schemas and tables sorted by name, is
    character for character the built one printed the same way *)
 Inductive load_out := LOk (c : catalog) | LErr | LPanic | LSame.
